@@ -408,8 +408,8 @@ class Structure(object):
 
         if self._peak is None:
             for s in reversed(list(prefix_visit(self))):
-                s._peak = (s._indices[s._values.index(s.vmax)],
-                           s.vmax)
+                s._peak = (min(i for i, v in zip(s._indices, s._values)
+                               if v == s.vmax), s.vmax)
                 if s.is_leaf:
                     s._peak_subtree = s._peak
                 else:
